@@ -452,6 +452,9 @@ func c02Stress(seed int64, tier string) *c02Result {
 		}
 		c02RunJob(seed*1000+int64(i), job, col)
 	}
+	if !col.failed() {
+		c02ColdStart(seed, tier, col)
+	}
 	for k := range col.seq {
 		res.Distinct = append(res.Distinct, k)
 	}
